@@ -1,26 +1,132 @@
 META = dict(
     engine='cosched',
     technique='stateless model checking: preemption-bounded exhaustive schedule enumeration (CHESS) of the real parsec_lifo_t, linearizability by brute force',
-    level_text='Every schedule with <= b preemptions (b=2..4 per script in quick - 4 for the two-thread ABA seeker -, 3..6 in thorough) of six 2-3 thread scripts (ABA seekers, chain, try_pop) over the real LIFO is executed; each history is checked for linearizability against a sequential stack plus conservation of items and absence of cycles.',
-    level_note='Sequential consistency at instrumented accesses (gcc -fsanitize=thread instrumentation + own runtime); 2-3 threads, <= 4 operations per thread; weak-memory effects (missing fences) are out of reach.',
+    level_text='Every schedule with <= b preemptions (b=2..4 per script in quick - 4 for the two-thread ABA seeker -, 3..6 in thorough) of six hand-written 2-3 thread scripts (ABA seekers, chain, try_pop) over the real LIFO is executed; plus GENERATED script families: all scripts pre-state (0..3 items) x T0 ops || T1 ops (|| T2) over the alphabet {pop, try_pop, push fresh, push back the oldest item the thread popped, chain ring of 2, chain ring of 3}, minus contract violations, up to thread symmetry - quick: shape (3,1) with T0 over {pop, push, push-back} and T1 in {pop, try_pop} at b=3 (address re-use = ABA), (1,1) at b=3, (2,1) at b=1, each under a wall budget; thorough: (2,1) b=4, (2,2) b=2, (1,1,1) b=2, (3,1) b=3, (2,1,1) b=1, budget-cut (evidence: scripts generated / filtered / explored). Each history is checked for linearizability against a sequential stack plus conservation of items and absence of cycles.',
+    level_note='Sequential consistency at instrumented accesses (gcc -fsanitize=thread instrumentation + own runtime); 2-3 threads, <= 4 operations per thread; generated families are cut by a wall budget on a loaded machine (exhaustive:false for that leg); weak-memory effects (missing fences) are out of reach.',
 )
-RULE = ("cosched: every schedule of each 2-3 thread script over the real parsec_lifo_t with at most b preemptions "
+RULE = ("cosched: every schedule of each 2-3 thread script (hand-written, and every script of the generated families 'family/gen_*': see the leg's spec, "
+        "scripts_generated / _after_contract / _after_symmetry / _explored / _completed) over the real parsec_lifo_t with at most b preemptions "
         "(scheduling points = every instrumented access to the lifo head and the items' links); a schedule is "
         "non-trivial when it contains at least one preemption; states = nodes of the explored schedule tree")
 QUICK = [('aba_pop_vs_pop_pop_push', 4), ('chain_order', 4), ('push_pop_push', 3), ('trypop_trypop_push', 3), ('chain_pop_push', 2), ('aba3', 2)]
 THOROUGH = [('aba_pop_vs_pop_pop_push', 6), ('chain_order', 6), ('push_pop_push', 4), ('trypop_trypop_push', 4), ('aba3', 3), ('chain_pop_push', 3)]
+# ---- generated (bounded-exhaustive) script families: see NOTES.md and the comment in lifo_h.c ----
+# (label, spec, preemption bound, wall budget in s, scripts per engine invocation, order, seconds a started script may always use)
+ALL = 'ops=ptubcC;pre=0123'
+FAMILIES = {
+    'quick': [
+        ('gen_31_b3_aba', 'shape=3,1;ops=pub;ops1=pt;pre=32', 3, 16, 2, 'seq', 6),
+        ('gen_11_b3', 'shape=1,1;%s' % ALL, 3, 10, 4, 'seq', 3),
+        ('gen_21_b1', 'shape=2,1;%s' % ALL, 1, 12, 16, 'seq', 1),
+    ],
+    'thorough': [
+        ('gen_21_b3', 'shape=2,1;%s' % ALL, 3, 110, 8, 'seq', 4),
+        ('gen_22_b2', 'shape=2,2;%s' % ALL, 2, 110, 24, 'seq', 2),
+        ('gen_111_b2', 'shape=1,1,1;%s' % ALL, 2, 80, 4, 'seq', 10),
+        ('gen_31_b3', 'shape=3,1;%s' % ALL, 3, 140, 8, 'spread', 5),
+        ('gen_211_b1', 'shape=2,1,1;%s' % ALL, 1, 60, 8, 'spread', 5),
+    ],
+}
+
+
+def bitrev_order(n):
+    if n <= 1:
+        return list(range(n))
+    w = (n - 1).bit_length()
+    return [j for j in (int(format(i, '0%db' % w)[::-1], 2) for i in range(1 << w)) if j < n]
+
+
+def gen_family(ctx, exe, label, spec, bound, budget, batch, order, allow, procs, jobs):
+    """Explore one generated family: the harness enumerates it (--gen-list), ranges of it are explored by parallel engine
+    invocations until everything is done or the wall budget is used up; one aggregated evidence leg."""
+    import os, sys, json, subprocess, time, statistics
+    from concurrent.futures import ThreadPoolExecutor
+    from vlib import OUT
+    env = dict(os.environ); env['C30_GEN'] = spec
+    r = subprocess.run([exe, '--gen-list'], env=env, capture_output=True, text=True)
+    if r.returncode != 0:
+        ctx.broken.append('%s: --gen-list failed: %s' % (label, r.stderr[-500:])); return
+    fam = json.loads(r.stdout)
+    n = fam['after_symmetry']
+    t0 = time.time(); t_end = t0 + budget
+    ranges = [(lo, min(n, lo + batch)) for lo in range(0, n, batch)]
+    if order == 'spread':
+        ranges = [ranges[i] for i in bitrev_order(len(ranges))]
+    mine = '%s@' % label
+    nviol0 = len(ctx.violations)
+    def one(rg):
+        left = t_end - time.time()
+        if left < 1.0 or len(ctx.violations) > nviol0:
+            return None                      # budget used up (or a violation is already reported): this range is not explored (exhaustive:false)
+        e = dict(env); e['C30_GEN'] = '%s;range=%d:%d' % (spec, rg[0], rg[1])
+        dl = max(2, int(left), int(allow * (rg[1] - rg[0])))
+        ctx.run_engine(exe, ['--bound', str(bound), '--jobs', str(jobs), '--outdir', OUT, '--deadline', str(dl)], label='%s%d' % (mine, rg[0]), timeout=dl + 300, env=e)
+        return rg
+    with ThreadPoolExecutor(max_workers=procs) as ex:
+        done = [x for x in ex.map(one, ranges) if x]
+    legs = [l for l in ctx.legs if str(l.get('leg', '')).startswith(mine)]
+    ctx.legs[:] = [l for l in ctx.legs if not str(l.get('leg', '')).startswith(mine)]
+    pos = {nm: i for i, nm in enumerate(fam['scripts'])}
+    legs.sort(key=lambda l: pos.get(l['name'], 0))
+    complete = [l for l in legs if l.get('exhaustive')]
+    outs = [int(l.get('distinct_outcomes', 0)) for l in (complete or legs)]      # outcome statistics over the scripts that completed their bound
+    samples = []
+    for l in sorted(legs, key=lambda l: -int(l.get('distinct_outcomes', 0)))[:2] + legs[:1]:
+        for sm in l.get('samples', [])[:1]:
+            samples.append(dict(sm, script=l['name']))
+    nex = sum(int(l.get('executions', 0)) for l in legs)
+    ctx.add_leg(name=label, leg='family', engine='cosched', spec=spec, bound=bound, order=order,
+                alphabet=fam['alphabet'], scripts_generated=fam['generated'], scripts_after_contract=fam['after_contract'],
+                scripts_after_relevance=fam['after_relevance'], scripts_after_symmetry=n,
+                scripts_explored=len(legs), scripts_completed=len(complete),
+                states=sum(int(l.get('states', 0)) for l in legs), transitions=sum(int(l.get('transitions', 0)) for l in legs),
+                executions=nex, nontrivial=sum(int(l.get('nontrivial', 0)) for l in legs),
+                distinct_outcomes=sum(outs), outcomes_per_script=dict(min=min(outs), median=statistics.median(outs), max=max(outs)) if outs else {},
+                single_outcome_scripts=sum(1 for o in outs if o <= 1), max_points=max([int(l.get('max_points', 0)) for l in legs] or [0]),
+                exhaustive=(len(complete) == n), violations=sum(int(l.get('violations', 0)) for l in legs),
+                explored_ranges=[list(x) for x in sorted(done)] if order == 'spread' else [[0, max([x[1] for x in done] or [0])]],
+                wall_s=round(time.time() - t0, 2), samples=samples)
+    sys.stderr.write('C30 family %s (bound %d): %d generated, %d after contract, %d after relevance, %d after symmetry; explored %d (complete %d), %d schedules, outcomes/script min %s max %s, %d single-outcome, %.1fs\n'
+                     % (label, bound, fam['generated'], fam['after_contract'], fam['after_relevance'], n, len(legs), len(complete),
+                        nex, min(outs) if outs else '-', max(outs) if outs else '-', sum(1 for o in outs if o <= 1), time.time() - t0))
+    # vacuity guard: a family whose scripts all have a single outcome collides with nothing
+    if legs and max(outs) <= 1 and not sum(int(l.get('violations', 0)) for l in legs):
+        ctx.broken.append('%s: every script of the family has a single outcome: the alphabet collides with nothing' % label)
+
+
+def families(ctx, exe):
+    import os
+    from vlib import NJOBS
+    procs = max(1, min(8, NJOBS)); jobs = max(1, min(2, NJOBS // procs))      # 16 cores: 8 invocations x 2 workers
+    fams = FAMILIES[ctx.tier]
+    if os.environ.get('C30_FAMILIES'):     # development: "label|spec|bound|budget|batch|order|allow;;..."
+        fams = [(a, b, int(c), float(d), int(e), f, float(g)) for a, b, c, d, e, f, g in (x.split('|') for x in os.environ['C30_FAMILIES'].split(';;'))]
+    # quick tier on a loaded machine: when the legs before took long, the family budgets shrink (down to 40 %: fewer batches are started; a started script always gets its 'allow') so that the tier stays bounded;
+    # the evidence then shows scripts_explored < scripts_after_symmetry
+    import time
+    scale = 1.0 if ctx.tier != 'quick' else min(1.0, max(0.4, (75.0 - (time.time() - ctx.t0)) / 40.0))
+    for label, spec, bound, budget, batch, order, allow in fams:
+        gen_family(ctx, exe, label, spec, bound, budget * scale, batch, order, allow, procs, jobs)
+
+
 def check(ctx):
     # one engine invocation per script: small scripts go deeper (the seeded "counter read after the item"
     # change needs 3 preemptions of a 2-thread script), cheapest first so a deadline cuts the biggest last
+    import os
     exe = ctx.compile('hk-shm', 'lifo', ['lifo_h.c'], engine='cosched')
-    plan = QUICK if ctx.tier == 'quick' else THOROUGH
-    budget = 60 if ctx.tier == 'quick' else 1200
-    ctx.set_budget(budget)
-    for i, (sc, b) in enumerate(plan):
-        share = max(5, ctx.remaining() / (len(plan) - i))
-        ctx.run_cosched(exe, b, scenario=sc, deadline=share, label='lifo-%s-b%d' % (sc, b))
+    only = os.environ.get('C30_ONLY', '')        # development switch: 'gen' = generated families only, 'hand' = hand-written scripts only
+    if only in ('', 'hand'):
+        plan = QUICK if ctx.tier == 'quick' else THOROUGH
+        budget = 60 if ctx.tier == 'quick' else 700
+        ctx.set_budget(budget)
+        for i, (sc, b) in enumerate(plan):
+            share = max(5, ctx.remaining() / (len(plan) - i))
+            ctx.run_cosched(exe, b, scenario=sc, deadline=share, label='lifo-%s-b%d' % (sc, b))
+    if only in ('', 'gen'):
+        families(ctx, exe)
     return ctx.finish(RULE, ["sequential consistency at instrumented accesses (no weak-memory effects)",
-                             "gcc -fsanitize=thread instrumentation reports every access to the watched objects"])
+                             "gcc -fsanitize=thread instrumentation reports every access to the watched objects",
+                             "generated families: a wall budget bounds each family; scripts_explored < scripts_after_symmetry means the family was cut (exhaustive:false for that leg)"])
 def replay(ctx, path, obj):
     import subprocess
     exe = ctx.compile('hk-shm', 'lifo', ['lifo_h.c'], engine='cosched')
